@@ -61,9 +61,9 @@ Print Assumptions C12_version_roundtrip.
 
 (* The peer being this library: Send, a parser, Expect. For all valid addresses,
    language and id, both roles: the header is accepted (an initiator needs an
-   id) and Info holds the same addresses, id, version and content name space.
-   Partial: the language is the exception, see below. *)
-Theorem C12_header_recovered_by_expect_tcp_partial :
+   id) and Info holds the same addresses, id, version, language and content
+   name space ([recovered]: every non-empty value sent replaces the Info's). *)
+Theorem C12_header_recovered_by_expect_tcp :
   forall parse recv i0 xmlns lang jto jfrom id rest,
     xmlns = ns_client \/ xmlns = ns_server ->
     valid_jid parse jto -> valid_jid parse jfrom -> valid_value lang -> valid_value id ->
@@ -71,32 +71,34 @@ Theorem C12_header_recovered_by_expect_tcp_partial :
       read_start (send_header false xmlns default_version lang (jid_string jto) (jid_string jfrom) id ++ rest)
         = Some (t, false, rest) /\
       t = tcp_token xmlns default_version lang (jid_string jto) (jid_string jfrom) id /\
-      let i' := recovered i0 ns_stream (str "stream") xmlns jto jfrom id in
+      let i' := recovered i0 ns_stream (str "stream") xmlns jto jfrom id lang in
       expect parse recv false i0 [t] =
         if negb recv && is_nil (i_id i') then (EStream c_bad_format, i', []) else (EOk, i', []).
 Proof. exact header_end_to_end_tcp. Qed.
-Print Assumptions C12_header_recovered_by_expect_tcp_partial.
+Print Assumptions C12_header_recovered_by_expect_tcp.
 
-Theorem C12_header_recovered_by_expect_ws_partial :
+Theorem C12_header_recovered_by_expect_ws :
   forall parse recv i0 xmlns lang jto jfrom id rest,
     valid_jid parse jto -> valid_jid parse jfrom -> valid_value lang -> valid_value id ->
     exists t,
       read_start (send_header true xmlns default_version lang (jid_string jto) (jid_string jfrom) id ++ rest)
         = Some (t, true, rest) /\
       t = ws_token default_version lang (jid_string jto) (jid_string jfrom) id /\
-      let i' := recovered i0 ns_ws (str "open") ns_ws jto jfrom id in
+      let i' := recovered i0 ns_ws (str "open") ns_ws jto jfrom id lang in
       expect parse recv true i0 [t; TEnd ns_ws (str "open")] =
         if negb recv && is_nil (i_id i') then (EStream c_bad_format, i', []) else (EOk, i', []).
 Proof. exact header_end_to_end_ws. Qed.
-Print Assumptions C12_header_recovered_by_expect_ws_partial.
+Print Assumptions C12_header_recovered_by_expect_ws.
 
-(* Full strength would add the language. Info.FromStartElement (stream/stream.go)
-   looks for the attribute {Space:"xml", Local:"lang"} while the decoder delivers
-   the XML name space URI: the faithful model never records it. *)
-Definition C12_header_language_statement : Prop := language_recovered_statement.
-Theorem C12_header_language_refuted : ~ C12_header_language_statement.
-Proof. exact language_refuted. Qed.
-Print Assumptions C12_header_language_refuted.
+(* what [recovered] holds, spelled out: the values sent *)
+Theorem C12_recovered_values :
+  forall i0 ns l xmlns jto jfrom id lang,
+    let i' := recovered i0 ns l xmlns jto jfrom id lang in
+    i_ns i' = ns /\ i_local i' = l /\ i_xmlns i' = xmlns /\ i_ver i' = default_version /\
+    (jid_string jto <> [] -> i_to i' = jto) /\ (jid_string jfrom <> [] -> i_from i' = jfrom) /\
+    (id <> [] -> i_id i' = id) /\ (lang <> [] -> i_lang i' = lang).
+Proof. exact recovered_values. Qed.
+Print Assumptions C12_recovered_values.
 
 (* ---- what Expect accepts ---- *)
 
@@ -162,37 +164,14 @@ Theorem C12_restart_addresses_stable_receiving :
 Proof. intros parse s2s ws lang. exact (rounds_recv parse s2s ws lang). Qed.
 Print Assumptions C12_restart_addresses_stable_receiving.
 
-(* Initiating side. Premise: jid.Parse never yields the empty JID.
-   Full strength: both addresses are those the session started with. *)
-Definition C12_restart_addresses_stable_initiating_statement : Prop := restart_init_statement.
-
-(* Refuted by the faithful model: a header carrying to='' is unmarshalled to
-   the zero JID (JID.UnmarshalXMLAttr), the negotiator tolerates it like a
-   missing "to", and the session's own address is the zero JID afterwards. *)
-Theorem C12_restart_addresses_stable_initiating_refuted : ~ C12_restart_addresses_stable_initiating_statement.
-Proof. exact restart_init_refuted. Qed.
-Print Assumptions C12_restart_addresses_stable_initiating_refuted.
-
-(* Proved for every sequence: the peer's address never changes; our own is the
-   established one or the zero JID, never another address. *)
-Theorem C12_restart_addresses_stable_initiating_partial :
-  forall parse, (forall v j, parse v = Some j -> j <> jid_zero) ->
-  forall s2s ws lang rounds i i' wires,
-    neg_rounds parse false s2s ws lang i rounds = (NOk, i', wires) ->
-    i_from i' = i_from i /\ (i_to i' = i_to i \/ i_to i' = jid_zero).
-Proof. intros parse Pz s2s ws lang. exact (rounds_init_weak parse Pz s2s ws lang). Qed.
-Print Assumptions C12_restart_addresses_stable_initiating_partial.
-
-(* ... and when no header carries an empty "to" attribute, both addresses are
-   those the session started with (a header without "to" changes nothing). *)
-Theorem C12_restart_addresses_stable_initiating_no_empty_to :
-  forall parse, (forall v j, parse v = Some j -> j <> jid_zero) ->
-  forall s2s ws lang rounds i i' wires,
-    forallb (fun r => no_empty_to (snd r)) rounds = true ->
+(* Initiating side: both addresses are those the session started with (a header
+   without "to", or with an empty one, is tolerated and changes nothing). *)
+Theorem C12_restart_addresses_stable_initiating :
+  forall parse s2s ws lang rounds i i' wires,
     neg_rounds parse false s2s ws lang i rounds = (NOk, i', wires) ->
     i_to i' = i_to i /\ i_from i' = i_from i.
-Proof. intros parse Pz s2s ws lang. exact (rounds_init parse Pz s2s ws lang). Qed.
-Print Assumptions C12_restart_addresses_stable_initiating_no_empty_to.
+Proof. intros parse s2s ws lang. exact (rounds_init parse s2s ws lang). Qed.
+Print Assumptions C12_restart_addresses_stable_initiating.
 
 (* One (re)start: a header after which an established address would differ is refused. *)
 Theorem C12_changed_address_rejected_receiving :
@@ -207,9 +186,8 @@ Print Assumptions C12_changed_address_rejected_receiving.
 
 Theorem C12_changed_address_rejected_initiating :
   forall parse s2s ws lang rid i ts res i' w,
-    (forall v j, parse v = Some j -> j <> jid_zero) ->
     neg_round parse false s2s ws lang rid i ts = (res, i', w) ->
-    (i_to i' <> i_to i /\ i_to i' <> jid_zero) \/ i_from i' <> i_from i ->
+    i_to i' <> i_to i \/ i_from i' <> i_from i ->
     res <> NOk.
 Proof. exact changed_address_rejected_init. Qed.
 Print Assumptions C12_changed_address_rejected_initiating.
